@@ -19,18 +19,20 @@ def one(sid):
             return sid, None, "DOES NOT APPLY " + r.stdout[-200:]
         env = dict(os.environ, VERIF_EVIDENCE_DIR=os.path.join(tmp, "ev"))
         hits = {}
+        inst = {}
         for p in PROPS:
             r = subprocess.run([os.path.join(VERIF, "check"), p, "--repo", dst], env=env, cwd=VERIF, stdout=subprocess.PIPE, stderr=subprocess.STDOUT, text=True)
             lines = r.stdout.splitlines()
             rules = []
-            for l in lines:
+            for i, l in enumerate(lines):
                 if l.startswith("---- ") and l.endswith(" violated"):
                     rules.append(l.split()[1])
+                    inst.setdefault(p, []).append("%s %s" % (l.split()[1], lines[i + 1].split(":", 1)[1].strip() if i + 1 < len(lines) else ""))
             if r.returncode == 2:
                 return sid, None, "ERROR in %s: %s" % (p, lines[-1][:200] if lines else "")
             if r.returncode == 1 and rules:
                 hits[p] = sorted(set(rules))
-        return sid, hits, ""
+        return sid, (hits, inst), ""
     finally:
         shutil.rmtree(tmp, ignore_errors=True)
 
@@ -43,8 +45,10 @@ def main():
                 print(sid, err); continue
             mp = os.path.join(VERIF, "seeded", sid, "meta.json")
             m = json.load(open(mp))
+            hits, inst = hits
             m["detected_by"] = sorted(hits)
             m["rules"] = hits
+            m["instances"] = inst
             json.dump(m, open(mp, "w"), indent=1, sort_keys=True)
             print(sid, "->", hits if hits else "NOT DETECTED")
 
